@@ -1094,3 +1094,247 @@ def run_getcwho(prog, ctx=None):
     if n < 3:
         raise Broken("GETCWHO: %d getc call sites found" % n)
     return res
+
+
+def run_splitcopy(prog, ctx=None):
+    """SPLITCOPY: when one destination is filled by two consecutive copies  copy(dst, A, n1); copy(dst + k, B, n2)
+    the second starts where the first ended (k is n1)"""
+    res = Result("SPLITCOPY")
+    files = set(ctx.get("files", [])) if ctx else None
+    for f in funcs_of(prog, files):
+        for bid, b in f.blocks.items():
+            copies = []
+            for i, e in enumerate(b.el):
+                if e.get("k") == "call" and callee_name(e) in ("memcpy", "memmove") and len(e.get("args", [])) == 3:
+                    copies.append((i, e))
+            # also a copy whose result is assigned:  addr = memcpy(data, addr, low)
+            for (i1, c1), (i2, c2) in zip(copies, copies[1:]):
+                d1 = strip(c1["args"][0], all_casts=True)
+                d2 = strip(c2["args"][0], all_casts=True)
+                if d2.get("k") != "bin" or d2.get("op") != "+":
+                    continue
+                base2 = strip(d2["a"], all_casts=True)
+                t1 = norm(show(d1, f))
+                tb = norm(show(base2, f))
+                # the base of the second copy is the first destination, or the variable the first copy's result was assigned to
+                same = tb == t1
+                if not same:
+                    for e in b.el[i1 + 1:i2]:
+                        if e.get("k") == "bin" and e.get("op") == "=" and any(m.get("sid") == c1.get("sid") for m in walk(e["b"])):
+                            if norm(show(strip(e["a"], lvalue_to_rvalue=False), f)) == tb:
+                                same = True
+                if not same:
+                    continue
+                k = norm(show(strip(d2["b"], all_casts=True), f))
+                n1 = norm(show(strip(c1["args"][2], all_casts=True), f))
+                ok = k == n1
+                res.ob("%s:%s | %s" % (f.qn, norm(show(c1, f))[:50], norm(show(c2, f))[:50]), ok, f, c2.get("l", 0),
+                       "" if ok else "first copy writes %s bytes, the second continues at offset %s: the pieces overlap or leave a gap" % (n1, k))
+    return res
+
+
+def run_resumesave(prog, ctx=None):
+    """RESUMESAVE (sibling agreement of exits): when at least three exits of one function save the same set of state fields
+    (stores to members of one object right before the return), an exit that saves most but not all of that set is reported —
+    the resumable coders keep (context, position, length) in step on every 'need more input / more space' exit"""
+    res = Result("RESUMESAVE")
+    files = set(ctx.get("files", [])) if ctx else None
+    for f in funcs_of(prog, files):
+        exits = []
+        for bid, b in f.blocks.items():
+            rets = [i for i, e in enumerate(b.el) if e.get("k") == "ret"]
+            if not rets:
+                continue
+            fields = []
+            for e in b.el[:rets[0]]:
+                for n in walk_own(e):
+                    if n.get("k") == "bin" and n["op"].endswith("=") and n["op"] not in ("==", "!=", "<=", ">="):
+                        l = strip(n["a"], lvalue_to_rvalue=False)
+                        if l.get("k") == "mem":
+                            fields.append(norm(show(l, f)))
+            if fields:
+                exits.append((bid, frozenset(fields), b.el[rets[0]]))
+        if len(exits) < 4:
+            continue
+        from collections import Counter
+        cnt = Counter(s for _, s, _ in exits)
+        major = [s for s, c in cnt.items() if c >= 3 and len(s) >= 2]
+        if not major:
+            continue
+        for S in major:
+            for bid, s, ret in exits:
+                if s == S:
+                    continue
+                if s < S and len(s) >= len(S) - 1 and len(s) >= 1 and len(S) >= 3:
+                    res.ob("%s:exit@%s saves %s" % (f.qn, norm(show(ret, f))[:30], "+".join(sorted(s))), False, f, ret.get("l", 0),
+                           "%d exits of this function save {%s}; this one leaves out %s: the resumed call continues from inconsistent state" % (
+                               cnt[S], ", ".join(sorted(S)), ", ".join(sorted(S - s))))
+            res.ob("%s:%d exits save {%s}" % (f.qn, cnt[S], ", ".join(sorted(S))), True, f, f.line)
+    return res
+
+
+def run_lazyorder(prog, ctx=None):
+    """LAZYORDER: a function that lazily initialises a static table (`if (!table) init();`) scans that table (a loop reading
+    any global the init function writes) only after the lazy-init test — a scan placed before it sees the empty table once"""
+    from .ival import global_effects
+    res = Result("LAZYORDER")
+    files = set(ctx.get("files", [])) if ctx else None
+    ge = global_effects(prog)
+    for f in funcs_of(prog, files):
+        guards = []
+        for bid, b in f.blocks.items():
+            if not b.term or b.term.get("cond") is None or b.term.get("cls") != "IfStmt" or len(b.succ) != 2:
+                continue
+            c = strip(b.term["cond"], all_casts=True)
+            if c.get("k") == "un" and c.get("op") == "!":
+                g = strip(c["e"], all_casts=True)
+                if g.get("k") == "bin" and g.get("op") == "=":
+                    g = strip(g["a"], lvalue_to_rvalue=False)
+                if g.get("k") == "ref" and g["d"].get("dk") == "global" and b.succ[0] is not None:
+                    # the true branch calls an in-repo function that writes this global
+                    for e in f.blocks[b.succ[0]].el:
+                        if e.get("k") == "call" and e.get("fn", {}).get("inroot"):
+                            for cal in prog.resolve_call(f, e):
+                                w = ge.get(cal.key(), {})
+                                if (f.file, g["d"]["n"]) in w:
+                                    guards.append((bid, cal, {k[1] for k in w if k[0] == f.file}))
+        if not guards:
+            continue
+        dom = f.dominators()
+        loops = natural_loops(f)
+        seen_scan = set()
+        for gb, init, written in guards:
+            for h, body in sorted(loops.items()):
+                if (h, init.name) in seen_scan:
+                    continue
+                seen_scan.add((h, init.name))
+                reads = set()
+                for x in body:
+                    blk = f.blocks[x]
+                    els = list(blk.el) + ([blk.term["cond"]] if blk.term and blk.term.get("cond") is not None else [])
+                    for e in els:
+                        for n in walk(e):
+                            if n.get("k") == "ref" and n["d"].get("dk") == "global" and n["d"]["n"] in written:
+                                reads.add(n["d"]["n"])
+                if not reads:
+                    continue
+                ok = any(g2 in dom[h] for g2, i2, w2 in guards if i2.name == init.name)      # some lazy-init test of this table dominates the scan
+                line = f.blocks[h].term.get("l", 0) if f.blocks[h].term else f.line
+                res.ob("%s:scan of %s after lazy %s()" % (f.qn, "+".join(sorted(reads)), init.name), ok, f, line,
+                       "" if ok else "this loop reads %s, which %s() fills, but the lazy-initialisation test comes later: the first call scans an empty table" % (
+                           ", ".join(sorted(reads)), init.name))
+    return res
+
+
+def run_validreset(prog, ctx=None):
+    """VALIDRESET: every call of mpt_parse_data(fmt, parse, path) is made with parse->valid known to be 0 (interval fact on the
+    member path): the data stage measures the value from there; a stale name length makes it report bytes that were never read"""
+    res = Result("VALIDRESET")
+    n = 0
+    for f in sorted(prog.functions.values(), key=lambda f: (f.file, f.line)):
+        if f.nocfg:
+            continue
+        calls = [(b, i, e) for b, i, e in f.elements() if e.get("k") == "call" and callee_name(e) == "mpt_parse_data" and len(e.get("args", [])) >= 2]
+        if not calls:
+            continue
+        an = Analysis(prog, f).run()
+        for b, i, e in calls:
+            n += 1
+            ctxarg = strip(e["args"][1], all_casts=True)
+            # build the member expression parse->valid from an existing node of this function
+            mem = None
+            for bb, ii, m in f.walk_all():
+                if m.get("k") == "mem" and m.get("f") == "valid" and norm(show(m["b"], f)) == norm(show(ctxarg, f)):
+                    mem = m
+                    break
+            v = an.val(b.id, i, mem) if mem is not None else None
+            ok = v is not None and v.lo == 0 and v.hi == 0
+            res.ob("%s:%s" % (f.qn, norm(show(e, f))), ok, f, e.get("l", 0),
+                   "" if ok else "mpt_parse_data() is entered with %s->valid = %s (not reset to 0 on this path)" % (norm(show(ctxarg, f)), v))
+    if n < 3:
+        raise Broken("VALIDRESET: %d calls of mpt_parse_data found" % n)
+    return res
+
+
+def run_steppair(prog, ctx=None):
+    """STEPPAIR: inside a loop a data pointer and the remaining length move by the same amount: a pointer advanced by a
+    non-constant step Y has a counter decreased (or a sibling pointer/total moved) by the same Y; advancing by a step that
+    no counter follows, while counters move by another step, desynchronises cursor and length"""
+    res = Result("STEPPAIR")
+    files = set(ctx.get("files", [])) if ctx else None
+    for f in funcs_of(prog, files):
+        loops = natural_loops(f)
+        for h, body in sorted(loops.items()):
+            adv = []     # (node, pointer name, step text)
+            dec = set()  # step texts by which integers are decreased
+            inc = set()
+            for x in body:
+                for e in f.blocks[x].el:
+                    for n in walk_own(e):
+                        if n.get("k") != "bin":
+                            continue
+                        l = strip(n["a"], lvalue_to_rvalue=False)
+                        if l.get("k") != "ref" or "id" not in l["d"]:
+                            continue
+                        LT = f.T(l.get("t"))
+                        step = None
+                        if n["op"] in ("+=", "-="):
+                            step = n["b"]
+                            kind = n["op"]
+                        elif n["op"] == "=":
+                            r = strip(n["b"], all_casts=True)
+                            if r.get("k") == "bin" and r.get("op") in ("+", "-"):
+                                ra = strip(r["a"], all_casts=True)
+                                if ra.get("k") == "ref" and ra["d"].get("id") == l["d"]["id"]:
+                                    step = r["b"]
+                                    kind = r["op"] + "="
+                        if step is None or cval(step) is not None:
+                            continue
+                        st = norm(show(strip(step, all_casts=True), f))
+                        if LT.get("k") == "ptr" and kind == "+=":
+                            PT = f.T(LT.get("to"))
+                            bytep = PT.get("k") == "void" or PT.get("sz") == 1
+                            if not bytep and n["op"] == "=":
+                                # data = ((uint8_t *) data) + step  on a void pointer
+                                rr = strip(n["b"], all_casts=True)
+                                bytep = f.T(f.pointee(strip(rr["a"], lvalue_to_rvalue=True).get("t")) if f.pointee(strip(rr["a"], lvalue_to_rvalue=True).get("t")) is not None else -1).get("sz") == 1
+                            if bytep:
+                                adv.append((n, l["d"]["n"], st))
+                        elif LT.get("k") == "int":
+                            (dec if kind == "-=" else inc).add(st)
+            for n, nm, st in adv:
+                if not dec:
+                    continue
+                ok = st in dec or any(d in st for d in dec)      # same step, or a multiple of the counted step (count * element size)
+                res.ob("%s:%s += %s" % (f.qn, nm, st), ok, f, n.get("l", 0),
+                       "" if ok else "%s advances by %s but the remaining length in this loop decreases by %s: cursor and length drift apart" % (nm, st, ", ".join(sorted(dec))))
+    return res
+
+
+def run_reservecap(prog, ctx=None):
+    """RESERVECAP: after buf = mpt_array_reserve(&a, N, ..) a write mpt_buffer_set(buf, .., P, data, L) must fit the reserved
+    size; reported when it definitely does not: P is the reserved size itself and L >= 1 (the write relies on allocation slack)"""
+    res = Result("RESERVECAP")
+    files = set(ctx.get("files", [])) if ctx else None
+    for f in funcs_of(prog, files):
+        reserves = {}
+        for b, i, n in f.walk_all():
+            if n.get("k") == "bin" and n.get("op") == "=":
+                r = strip(n["b"], all_casts=True)
+                l = strip(n["a"], lvalue_to_rvalue=False)
+                if r.get("k") == "call" and callee_name(r) == "mpt_array_reserve" and len(r.get("args", [])) >= 2 and l.get("k") == "ref":
+                    reserves[l["d"]["id"]] = (r, norm(show(strip(r["args"][1], all_casts=True), f)))
+        if not reserves:
+            continue
+        for b, i, e in f.elements():
+            if e.get("k") == "call" and callee_name(e) == "mpt_buffer_set" and len(e.get("args", [])) == 5:
+                x = strip(e["args"][0], all_casts=True)
+                if x.get("k") != "ref" or x["d"].get("id") not in reserves:
+                    continue
+                rcall, N = reserves[x["d"]["id"]]
+                P = norm(show(strip(e["args"][2], all_casts=True), f))
+                L = cval(e["args"][4])
+                bad = L is not None and L >= 1 and P == N
+                res.ob("%s:%s" % (f.qn, norm(show(e, f))[:70]), not bad, f, e.get("l", 0),
+                       "" if not bad else "writes %d byte(s) at offset %s of a buffer reserved for exactly %s bytes: succeeds only while the allocator rounds the size up" % (L, P, N))
+    return res
